@@ -3,6 +3,7 @@
 Span  = Opaque('Span', origin)      origin: ('in', input-name) | ('call_site',) | ('join', a, b) ...
 Ident = Opaque('Ident', (string content, span origin))
 """
+import re
 import z3
 
 from .values import *
@@ -267,6 +268,30 @@ def m_parser_parse2(I, st, inst, args):
         return Lazy(name, inst.sig[-1])
     if isinstance(src, Opaque) and src.kind == "TokenStream" and src.data[0] == "in":
         name = src.data[1] + ".parsed"
+    elif isinstance(src, Opaque) and src.data[0] == "toks" and "ParseQuote" in inst.name and all(t[0] in ("i", "p") and isinstance(t[1], str) for t in src.data[1]):
+        # parse_quote! of literal tokens (`parse_quote!(darling)`): the text is known; a plain path gets its shape fixed
+        text = "".join(t[1] for t in src.data[1])
+        name = "pq(%s)" % text
+        if "<syn::Path as" in inst.name and re.fullmatch(r"(::)?[A-Za-z_][A-Za-z0-9_]*(::[A-Za-z_][A-Za-z0-9_]*)*", text):
+            segs = [x for x in text.split("::") if x]
+            base = name + ".Ok.0"
+            pre = {name + "#d": 0, base + ".leading_colon#d": 1 if text.startswith("::") else 0, base + ".segments#len": len(segs)}
+            for i, sg in enumerate(segs):
+                pre["%s.segments[%d].arguments#d" % (base, i)] = 0
+                from .lazy import constrain_once
+                constrain_once(st, "%s.segments[%d].ident.sym" % (base, i), z3.String("%s.segments[%d].ident.sym" % (base, i)) == z3.StringVal(sg))
+            for k, v in pre.items():
+                st.decisions.setdefault(k, v)
+                I.domains.setdefault(k, [v])
+        else:
+            st.decisions.setdefault(name + "#d", 0)
+            I.domains.setdefault(name + "#d", [0])
+    elif isinstance(src, Opaque) and src.data[0] == "toks" and "ParseQuote" in inst.name:
+        # parse_quote! of interpolated tokens: well-formed by construction of the macro (it panics otherwise: outside the claim)
+        name = "pq#%d" % (st.extra.get("pqn", 0))
+        st.extra["pqn"] = st.extra.get("pqn", 0) + 1
+        st.decisions.setdefault(name + "#d", 0)
+        I.domains.setdefault(name + "#d", [0])
     elif isinstance(src, Opaque):
         name = "parse(%s)" % (src.data,)
     else:
@@ -554,6 +579,12 @@ def m_syn_to_tokens(I, st, inst, args):
         raise Unsupported("to_tokens into %r" % (ts,))
     tname = inst.name.split(" as ")[0].lstrip("<") if " as " in inst.name else inst.name.split(" for ")[-1].split(">")[0]
     origin = node.name if isinstance(node, Lazy) else None
+    if tname.endswith("proc_macro2::TokenStream") and ts_tokens(node) is not None:
+        I.write(st, args[1], Opaque("TokenStream", ("toks", toks + ts_tokens(node))))
+        return UNIT
+    if isinstance(node, Opaque) and node.kind == "Ident" and tname.endswith("Ident"):
+        I.write(st, args[1], Opaque("TokenStream", ("toks", toks + (("i", node.data[0], node.data[1]),))))
+        return UNIT
     I.write(st, args[1], Opaque("TokenStream", ("toks", toks + (("node", tname, node, origin),))))
     return UNIT
 
@@ -597,6 +628,8 @@ def render_tokens(I, st, toks):
             parts.append(s)
         elif t[0] == "node" and t[1].endswith("Ident"):
             parts.append(t[2].data[0])
+        elif t[0] in ("i", "p"):
+            parts.append(t[1])
         elif t[0] == "node" and t[1].endswith("PathSegment"):
             sgm = t[2]
             if isinstance(sgm, Lazy):
@@ -617,6 +650,218 @@ def render_tokens(I, st, toks):
             out = scat(out, " ")
         out = scat(out, p)
     return out
+
+
+# ---------------------------------------------------------------------------- ident_case (external crate): case conversion of concrete identifiers
+_RULES = ["None", "LowerCase", "PascalCase", "CamelCase", "SnakeCase", "ScreamingSnakeCase", "KebabCase"]
+
+
+def _rule_field(rule, f):
+    if rule in ("None", "LowerCase", "SnakeCase"):
+        return f
+    if rule == "PascalCase":
+        out, cap = "", True
+        for ch in f:
+            if ch == "_":
+                cap = True
+            elif cap:
+                out += ch.upper() if ch.isascii() else ch
+                cap = False
+            else:
+                out += ch
+        return out
+    if rule == "CamelCase":
+        p = _rule_field("PascalCase", f)
+        if not p:
+            raise PanicExc("byte index 1 is out of bounds of ``")
+        return p[:1].lower() + p[1:]
+    if rule == "ScreamingSnakeCase":
+        return f.upper()
+    return f.replace("_", "-")
+
+
+def _rule_variant(rule, v):
+    if rule in ("None", "PascalCase"):
+        return v
+    if rule == "LowerCase":
+        return v.lower()
+    if rule == "CamelCase":
+        if not v:
+            raise PanicExc("byte index 1 is out of bounds of ``")
+        return v[:1].lower() + v[1:]
+    snake = ""
+    for i, ch in enumerate(v):
+        if i > 0 and ch.isupper():
+            snake += "_"
+        snake += ch.lower()
+    if rule == "SnakeCase":
+        return snake
+    if rule == "ScreamingSnakeCase":
+        return snake.upper()
+    return snake.replace("_", "-")
+
+
+@model("ident_case::RenameRule::apply_to_field::<*>", "ident_case::RenameRule::apply_to_variant::<*>")
+def m_rename_rule_apply(I, st, inst, args):
+    from .models import PanicExc   # noqa: F401
+    rv = I.read(st, args[0])
+    if isinstance(rv, Lazy):
+        rv = I.lazy.expand(I, st, rv, args[0])
+    if not isinstance(rv, Agg) or not isinstance(rv.v, int):
+        raise Unsupported("rename rule %r" % (rv,))
+    name = str_of(I, st, args[1])
+    if not isinstance(name, str):
+        raise Unsupported("case conversion of a symbolic identifier")
+    rule = _RULES[rv.v]
+    out = _rule_field(rule, name) if "apply_to_field" in inst.name else _rule_variant(rule, name)
+    return StringVal(out)
+
+
+# ---------------------------------------------------------------------------- quote!'s runtime: tokens appended to the abstract stream
+_PUNCT = {"add": "+", "add_eq": "+=", "and": "&", "and_and": "&&", "and_eq": "&=", "at": "@", "bang": "!", "caret": "^", "caret_eq": "^=", "colon": ":",
+          "colon2": "::", "comma": ",", "div": "/", "div_eq": "/=", "dot": ".", "dot2": "..", "dot3": "...", "dot_dot_eq": "..=", "eq": "=", "eq_eq": "==",
+          "ge": ">=", "gt": ">", "le": "<=", "lt": "<", "mul_eq": "*=", "ne": "!=", "or": "|", "or_eq": "|=", "or_or": "||", "pound": "#", "question": "?",
+          "rarrow": "->", "larrow": "<-", "rem": "%", "rem_eq": "%=", "fat_arrow": "=>", "semi": ";", "shl": "<<", "shl_eq": "<<=", "shr": ">>", "shr_eq": ">>=",
+          "star": "*", "sub": "-", "sub_eq": "-=", "underscore": "_"}
+
+
+def _ts_append(I, st, ptr, toks_new):
+    ts = I.read(st, ptr)
+    toks = ts_tokens(ts)
+    if toks is None:
+        raise Unsupported("append to %r" % (ts,))
+    I.write(st, ptr, Opaque("TokenStream", ("toks", toks + tuple(toks_new))))
+    return UNIT
+
+
+def _ts_flat(v):
+    """tokens of a stream value that is appended to another stream"""
+    toks = ts_tokens(v)
+    if toks is not None:
+        return toks
+    if isinstance(v, Opaque) and v.kind == "TokenStream":
+        return (("node", "proc_macro2::TokenStream", v, v.data[1] if v.data and v.data[0] == "in" else None),)
+    if isinstance(v, Lazy):
+        return (("node", "proc_macro2::TokenStream", v, v.name),)
+    raise Unsupported("token stream value %r" % (v,))
+
+
+@model("syn::__private::quote::__private::push_*", "quote::__private::push_*")
+def m_quote_push(I, st, inst, args):
+    nm = inst.name.rsplit("::push_", 1)[1]
+    spanned = nm.endswith("_spanned")
+    if spanned:
+        nm = nm[:-len("_spanned")]
+    span = span_of(args[1]).data if spanned else ("call_site",)
+    rest = args[2:] if spanned else args[1:]
+    if nm == "ident":
+        return _ts_append(I, st, args[0], [("i", str_of(I, st, rest[0]), span)])
+    if nm == "lifetime":
+        return _ts_append(I, st, args[0], [("lt", str_of(I, st, rest[0]), span)])
+    if nm == "group":
+        inner = rest[1]
+        return _ts_append(I, st, args[0], [("g", rest[0], _ts_flat(inner), span)])
+    if nm in _PUNCT:
+        return _ts_append(I, st, args[0], [("p", _PUNCT[nm], span)])
+    raise Unsupported("quote push_%s" % nm)
+
+
+@model("syn::__private::quote::__private::parse", "syn::__private::quote::__private::parse_spanned", "quote::__private::parse", "quote::__private::parse_spanned")
+def m_quote_parse(I, st, inst, args):
+    return _ts_append(I, st, args[0], [("raw", str_of(I, st, args[-1]), ("call_site",))])
+
+
+@model("syn::__private::quote::__private::mk_ident", "syn::__private::quote::__private::ident_maybe_raw", "quote::__private::mk_ident")
+def m_quote_mk_ident(I, st, inst, args):
+    sp = args[1]
+    if isinstance(sp, Agg):      # Option<Span>
+        sp = sp.f[0] if sp.v == 1 else CALL_SITE
+    return Opaque("Ident", (str_of(I, st, args[0]), span_of(sp).data if isinstance(sp, Opaque) else ("call_site",)))
+
+
+@model("<proc_macro2::TokenStream as std::iter::Extend<proc_macro2::TokenStream>>::extend::<*>", aux="into_iter:0,next:0")
+def m_ts_extend_ts(I, st, inst, args):
+    from .models import drive_iter, _into_iter_value, PanicExc, Forks
+    alts = []
+    for s1, itv in _into_iter_value(I, st, inst, args[1], 0):
+        if isinstance(itv, PanicExc):
+            alts.append((s1, itv))
+            continue
+        for s2, items in drive_iter(I, s1, inst.aux.get("next0"), itv):
+            if isinstance(items, PanicExc):
+                alts.append((s2, items))
+                continue
+            new = []
+            for it in items:
+                new.extend(_ts_flat(it))
+            _ts_append(I, s2, args[0], new)
+            alts.append((s2, UNIT))
+    return Forks(alts)
+
+
+@model("<proc_macro2::TokenStream as std::iter::FromIterator<proc_macro2::TokenStream>>::from_iter::<*>", aux="into_iter:0,next:0")
+def m_ts_from_iter_ts(I, st, inst, args):
+    from .models import drive_iter, _into_iter_value, PanicExc, Forks
+    alts = []
+    for s1, itv in _into_iter_value(I, st, inst, args[0], 0):
+        if isinstance(itv, PanicExc):
+            alts.append((s1, itv))
+            continue
+        for s2, items in drive_iter(I, s1, inst.aux.get("next0"), itv):
+            if isinstance(items, PanicExc):
+                alts.append((s2, items))
+                continue
+            new = []
+            for it in items:
+                new.extend(_ts_flat(it))
+            alts.append((s2, Opaque("TokenStream", ("toks", tuple(new)))))
+    return Forks(alts)
+
+
+@model("<proc_macro2::TokenStream as syn::__private::TokenStreamExt>::append::<*>", "<proc_macro2::TokenStream as quote::TokenStreamExt>::append::<*>",
+       "<proc_macro2::TokenStream as syn::ext::TokenStreamExt>::append")
+def m_ts_append_tt(I, st, inst, args):
+    v = args[1]
+    if isinstance(v, Opaque) and v.kind == "Ident":
+        return _ts_append(I, st, args[0], [("i", v.data[0], v.data[1])])
+    return _ts_append(I, st, args[0], [("node", getattr(v, "kind", "tt"), v, None)])
+
+
+@model("syn::gen::debug::<impl std::fmt::Debug for syn::*>::fmt", "<syn::* as std::fmt::Debug>::fmt", "<proc_macro2::* as std::fmt::Debug>::fmt",
+       "<darling::ast::NestedMeta as std::fmt::Debug>::fmt")
+def m_syn_debug(I, st, inst, args):
+    """Debug output of syntax nodes only ever feeds panic / error message text: not interpreted"""
+    fmt_append(I, st, args[1], "<debug>")
+    return OK_UNIT
+
+
+@model("<proc_macro2::TokenStream as syn::__private::TokenStreamExt>::append_all::<proc_macro2::TokenStream>",
+       "<proc_macro2::TokenStream as quote::TokenStreamExt>::append_all::<proc_macro2::TokenStream>")
+def m_ts_append_all_ts(I, st, inst, args):
+    return _ts_append(I, st, args[0], _ts_flat(args[1]))
+
+
+@model("proc_macro2::TokenStream::is_empty")
+def m_ts_is_empty(I, st, inst, args):
+    v = I.read(st, args[0])
+    toks = ts_tokens(v)
+    if toks is None:
+        raise Unsupported("is_empty of an input token stream")
+    return len(toks) == 0
+
+
+@model("syn::Error::to_compile_error", "syn::Error::into_compile_error")
+def m_syn_error_to_compile_error(I, st, inst, args):
+    e = args[0]
+    if isinstance(e, Ptr):
+        e = I.read(st, e)
+    return Opaque("TokenStream", ("toks", (("ce", e.data),)))
+
+
+@model("proc_macro2::Literal::string", "proc_macro2::Literal::usize_unsuffixed", "proc_macro2::Literal::u64_unsuffixed", "proc_macro2::Literal::usize_suffixed")
+def m_literal_new(I, st, inst, args):
+    a = args[0]
+    return Opaque("Literal", ("new", a if not isinstance(a, (Ptr, Lazy)) else str_of(I, st, a)))
 
 
 _old_display = SynPolicy.display
